@@ -319,3 +319,23 @@ Lemma C16_example_proof :
   map (fun k => aget k (cb_cfg (cb_run [[("a", mk 10 5); ("b", mk 0 5)]; [("b", mk 50 100); ("c", none)]])))
       ["a"; "b"; "c"; "d"] = [Some cb_disabled; Some (true, 50, 100); None; None].
 Proof. vm_compute. reflexivity. Qed.
+
+Lemma C17_example_proof :
+  let rt cluster n methods := {| r_match := HttpMatch "" "/" []; r_clusters := [(cluster, 1)]; r_timeout := 0%Z;
+                                 r_retry := {| rp_on := "5xx"; rp_num := n; rp_pertry := 2000000000%Z; rp_idle := 0%Z; rp_cbrate := 0;
+                                               rp_backoff := Some (10000000%Z, 50000000%Z); rp_methods := methods |} |} in
+  let table rs := VRc {| rc_http := Some [("vh", rs)]; rc_thrift := None; rc_maxtok := 0; rc_tpf := 0 |} in
+  let s1 := rt_update rt_init [("A", table [rt "ca" 3 ["m1"]]); ("B", table [rt "cb" 2 []])] in
+  let s2 := rt_update s1 [("A", table [rt "ca" 3 ["m1"]]); ("B", table [rt "cb2" 2 []])] in
+  (map fst (sort_map (rt_pol s1)), map fst (sort_map (rt_pol s2)),
+   option_map (map (fun p => (rq_times p, rq_dur p, rq_bo p))) (aget "ca|m1" (rt_pol s2))) =
+  (["ca"; "ca|m1"; "cb"], ["ca"; "ca|m1"; "cb2"], Some [(3, 6000, (2, 10, 50))]).
+Proof. vm_compute. reflexivity. Qed.
+
+Lemma C18_example_proof :
+  let nf port tpf := {| nf_thrift := false; nf_rcname := ""; nf_port := port;
+                        nf_inline := Some {| rc_http := None; rc_thrift := None; rc_maxtok := 100; rc_tpf := tpf |} |} in
+  let up l := [(reserved_lds, VLis l)] in
+  (limiter_qps 8888 (up [nf 0 7; nf 8888 40]), limiter_qps 9999 (up [nf 0 7; nf 8888 40]), limiter_qps 8888 (up [nf 8888 0; nf 0 7]),
+   limiter_qps 8888 [("other", VLis [nf 8888 40])]) = (Some 40, Some 7, None, None).
+Proof. vm_compute. reflexivity. Qed.
